@@ -26,6 +26,33 @@ fn answers(a: &Value, b: &Value) -> (bool, bool, bool, bool) {
 		routes.push(x.as_unordered() == y.as_unordered());
 		routes.push(Unordered(x.clone()) == Unordered(y.clone()));
 	}
+	// operands that come from elsewhere: built on another thread, or brought in by clone_from into an unrelated value
+	{
+		let pa = project(a);
+		let pb = project(b);
+		let (ta, tb) = std::thread::scope(|sc| {
+			let h = sc.spawn(|| (build(&pa).unwrap(), build(&pb).unwrap()));
+			h.join().unwrap()
+		});
+		routes.push(a.unordered_eq(&tb));
+		routes.push(ta.unordered_eq(b));
+		// reflexivity of a value that came from another thread
+		if !tb.unordered_eq(&tb) || !ta.unordered_eq(&ta) {
+			routes.push(!ab);
+		}
+		let mut cb = Value::Object(vec![Entry::new("unrelated".into(), Value::Null)].into_iter().collect());
+		cb.clone_from(b);
+		routes.push(a.unordered_eq(&cb));
+		routes.push(cb.unordered_eq(a));
+		if let (Value::Object(x), Value::Object(y)) = (a, b) {
+			let mut cy: json_syntax::Object = vec![Entry::new("unrelated".into(), Value::Null), Entry::new("other".into(), Value::Null)].into_iter().collect();
+			cy.clone_from(y);
+			routes.push(x.unordered_eq(&cy));
+			let mut v = vec![json_syntax::Object::new()];
+			v.clone_from(&vec![y.clone()]);
+			routes.push(x.unordered_eq(&v[0]));
+		}
+	}
 	if routes.iter().any(|r| *r != ab) {
 		w2 = !ab;
 	}
@@ -117,7 +144,14 @@ pub fn record(args: &Args) {
 	g.max_children = 5;
 	let mut lines = vec![];
 	for i in 0..n {
-		let a = if i % 10 == 9 {
+		let a = if i % 20 == 13 {
+			// one key occurring 66..80 times (plus a few others): matching repeated entries one-to-one, at scale
+			let n = 66 + rng.below(15);
+			let mut es: Vec<Entry> = (0..n).map(|_| Entry::new("dup".into(), g.leaf(&mut rng))).collect();
+			es.push(Entry::new("x".into(), g.leaf(&mut rng)));
+			es.push(Entry::new("dup".into(), Value::Array(vec![g.leaf(&mut rng)])));
+			Value::Object(es.into_iter().collect())
+		} else if i % 10 == 9 {
 			// a wide object (an implementation may switch strategy with the size): 64..100 entries over 40 keys, so that many
 			// keys repeat, some with equal values and some with different ones
 			let n = 64 + rng.below(37);
